@@ -204,3 +204,171 @@ Proof. intros Hlen. unfold ll_ls, autofold, ll, ll_per_bin, auto_fold, fold_ls, 
       by (symmetry; apply map_snd_combine_eq; exact Hlen).
     reflexivity.
   - apply ll_terms_is_msum. Qed.
+
+(** ** hidden content: what is stored under a masked entry of the model or of the data is irrelevant.
+    [vis_eq a b]: same length, same masks, same values wherever unmasked (the values under a mask are arbitrary
+    and may differ).  Every output of the likelihood functions of two visibly equal (model, data) pairs is
+    visibly equal -- scalars and residual arrays equal, masked arrays visibly equal.  (Over R a stored value
+    cannot be nan or inf; the harness hands such content to the real code, stream 'containers'.) *)
+Definition vis1 (x y : entryR) : Prop := em x = em y /\ (em x = false -> ev x = ev y).
+Definition vis_eq (a b : list entryR) : Prop := Forall2 vis1 a b.
+
+Lemma vis_eq_refl a : vis_eq a a.
+Proof. induction a; constructor; [split; auto | assumption]. Qed.
+
+Lemma zipw_rel {A B C} (RA : A -> A -> Prop) (RB : B -> B -> Prop) (RC : C -> C -> Prop) (f : A -> B -> C) :
+  (forall x x' y y', RA x x' -> RB y y' -> RC (f x y) (f x' y')) ->
+  forall a a', Forall2 RA a a' -> forall b b', Forall2 RB b b' -> Forall2 RC (zipw f a b) (zipw f a' b').
+Proof. intros Hf a a' Ha. induction Ha as [|x x' a a' Hx Ha IH]; intros b b' Hb; [constructor|].
+  destruct Hb as [|y y' b b' Hy Hb]; [constructor|].
+  unfold zipw. cbn [combine map fst snd]. constructor; [apply Hf; assumption | apply IH; assumption]. Qed.
+
+Lemma Forall2_eq_list {A} (a b : list A) : Forall2 eq a b -> a = b.
+Proof. induction 1; [reflexivity | f_equal; assumption]. Qed.
+
+Lemma vis_eq_msum a b : vis_eq a b -> Likelihood.msum a = Likelihood.msum b.
+Proof. induction 1 as [|[v m] [v' m'] a b [Hm Hv] _ IH]; [reflexivity|].
+  unfold em, ev in Hm, Hv. cbn [fst snd] in Hm, Hv. subst m'. rewrite !msum_cons, IH.
+  destruct m; [reflexivity | rewrite Hv; reflexivity]. Qed.
+
+Lemma vis_eq_scale s a b : vis_eq a b -> vis_eq (scale s a) (scale s b).
+Proof. induction 1 as [|x y a b [Hm Hv] _ IH]; [constructor|].
+  unfold scale. cbn [map]. constructor; [|exact IH].
+  split; unfold em, ev in *; cbn [fst snd]; [exact Hm | intros E; rewrite (Hv E); reflexivity]. Qed.
+
+Lemma vis1_llpb lg x x' y y' : vis1 x x' -> vis1 y y' -> vis1 (llpb_entry lg x y) (llpb_entry lg x' y').
+Proof. destruct x as [xv xm], x' as [xv' xm'], y as [yv ym], y' as [yv' ym'].
+  unfold vis1, llpb_entry, ma_log, em, ev. cbn [fst snd]. intros [Mx Vx] [My Vy]. subst xm' ym'.
+  destruct xm; [split; [reflexivity | cbn; intros E; discriminate E]|].
+  rewrite <- (Vx eq_refl).
+  destruct ym; [split; [reflexivity | rewrite orb_true_r; intros E; discriminate E]|].
+  rewrite <- (Vy eq_refl). split; auto. Qed.
+
+Lemma vis_eq_masks_equal a a' : vis_eq a a' -> forall d d', vis_eq d d' -> masks_equal a d = masks_equal a' d'.
+Proof. induction 1 as [|x x' a a' [Hx _] _ IH]; intros d d' Hd; [reflexivity|].
+  destruct Hd as [|y y' d d' [Hy _] Hd]; [reflexivity|].
+  unfold masks_equal. cbn [combine forallb fst snd]. rewrite Hx, Hy. f_equal. apply IH. exact Hd. Qed.
+
+Lemma vis_eq_jmask a a' : vis_eq a a' -> forall d d', vis_eq d d' -> jmask a d = jmask a' d'.
+Proof. intros Ha d d' Hd. apply Forall2_eq_list.
+  apply (zipw_rel vis1 vis1 eq (fun a b : entryR => em a || em b)); auto.
+  intros x x' y y' [Hx _] [Hy _]. rewrite Hx, Hy. reflexivity. Qed.
+
+Lemma vis_eq_setmask a a' mk : vis_eq a a' -> vis_eq (setmask a mk) (setmask a' mk).
+Proof. intros Ha. apply (zipw_rel vis1 eq vis1 (fun (e : entryR) (b : bool) => (ev e, em e || b))); auto.
+  - intros x x' b b' [Hx Vx] <-. split; unfold em, ev in *; cbn [fst snd]; [rewrite Hx; reflexivity|].
+    intros E. apply orb_false_elim in E. apply Vx, (proj1 E).
+  - clear. induction mk; constructor; auto. Qed.
+
+Lemma vis_eq_intersect remask a a' d d' : vis_eq a a' -> vis_eq d d' ->
+  vis_eq (fst (intersect_masks remask a d)) (fst (intersect_masks remask a' d')) /\
+  vis_eq (snd (intersect_masks remask a d)) (snd (intersect_masks remask a' d')).
+Proof. intros Ha Hd. unfold intersect_masks.
+  rewrite <- (vis_eq_masks_equal a a' Ha d d' Hd), <- (vis_eq_jmask a a' Ha d d' Hd).
+  destruct (masks_equal a d); cbn [fst snd]; split; auto; apply vis_eq_setmask; assumption. Qed.
+
+Lemma vis1_lin cut x x' y y' : vis1 x x' -> vis1 y y' -> lin_entry cut x y = lin_entry cut x' y'.
+Proof. destruct x as [xv xm], x' as [xv' xm'], y as [yv ym], y' as [yv' ym'].
+  unfold vis1, lin_entry, em, ev. cbn [fst snd]. intros [Mx Vx] [My Vy]. subst xm' ym'.
+  destruct xm; [reflexivity|]. destruct ym; [reflexivity|].
+  rewrite <- (Vx eq_refl), <- (Vy eq_refl). reflexivity. Qed.
+
+Lemma vis1_ans cut x x' y y' : vis1 x x' -> vis1 y y' -> ans_entry cut x y = ans_entry cut x' y'.
+Proof. destruct x as [xv xm], x' as [xv' xm'], y as [yv ym], y' as [yv' ym'].
+  unfold vis1, ans_entry, em, ev. cbn [fst snd]. intros [Mx Vx] [My Vy]. subst xm' ym'.
+  destruct xm; [reflexivity|]. destruct ym; [reflexivity|].
+  rewrite <- (Vx eq_refl), <- (Vy eq_refl). reflexivity. Qed.
+
+Section HiddenContent.
+  Variable lg : R -> R.
+  Variable remask : bool.
+  Variable fold : list entryR -> list entryR.
+  Hypothesis fold_vis : forall a b, vis_eq a b -> vis_eq (fold a) (fold b).
+
+  Lemma vis_eq_auto_fold mf df a b : vis_eq a b -> vis_eq (auto_fold fold mf df a) (auto_fold fold mf df b).
+  Proof. intros H. unfold auto_fold. destruct (df && negb mf); auto. Qed.
+
+  Lemma vis_eq_ll_per_bin mf df m m' d d' : vis_eq m m' -> vis_eq d d' ->
+    vis_eq (ll_per_bin lg fold mf df m d) (ll_per_bin lg fold mf df m' d').
+  Proof. intros Hm Hd. unfold ll_per_bin.
+    apply (zipw_rel vis1 vis1 vis1 (llpb_entry lg) (vis1_llpb lg)); [apply vis_eq_auto_fold; assumption | assumption]. Qed.
+
+  Lemma vis_eq_scaling mf df m m' d d' : vis_eq m m' -> vis_eq d d' ->
+    optimal_sfs_scaling fold remask mf df m d = optimal_sfs_scaling fold remask mf df m' d'.
+  Proof. intros Hm Hd. unfold optimal_sfs_scaling.
+    destruct (vis_eq_intersect remask _ _ d d' (vis_eq_auto_fold mf df m m' Hm) Hd) as [A B].
+    rewrite (vis_eq_msum _ _ A), (vis_eq_msum _ _ B). reflexivity. Qed.
+
+  Theorem hidden_content_irrelevant (cut : option R) (mf df : bool) (m m' d d' : list entryR) :
+    vis_eq m m' -> vis_eq d d' ->
+    ll lg fold mf df m d = ll lg fold mf df m' d' /\
+    vis_eq (ll_per_bin lg fold mf df m d) (ll_per_bin lg fold mf df m' d') /\
+    optimal_sfs_scaling fold remask mf df m d = optimal_sfs_scaling fold remask mf df m' d' /\
+    vis_eq (optimally_scaled_sfs fold remask mf df m d) (optimally_scaled_sfs fold remask mf df m' d') /\
+    vis_eq (ll_multinom_per_bin lg fold remask mf df m d) (ll_multinom_per_bin lg fold remask mf df m' d') /\
+    ll_multinom lg fold remask mf df m d = ll_multinom lg fold remask mf df m' d' /\
+    linear_Poisson_residual fold cut mf df m d = linear_Poisson_residual fold cut mf df m' d' /\
+    Anscombe_Poisson_residual fold cut mf df m d = Anscombe_Poisson_residual fold cut mf df m' d'.
+  Proof. intros Hm Hd.
+    assert (Hs : vis_eq (optimally_scaled_sfs fold remask mf df m d) (optimally_scaled_sfs fold remask mf df m' d')).
+    { unfold optimally_scaled_sfs. rewrite (vis_eq_scaling mf df m m' d d' Hm Hd). apply vis_eq_scale, Hm. }
+    assert (Hpm : vis_eq (ll_multinom_per_bin lg fold remask mf df m d) (ll_multinom_per_bin lg fold remask mf df m' d')).
+    { unfold ll_multinom_per_bin. apply vis_eq_ll_per_bin; assumption. }
+    repeat split.
+    - unfold ll. apply vis_eq_msum, vis_eq_ll_per_bin; assumption.
+    - apply vis_eq_ll_per_bin; assumption.
+    - apply vis_eq_scaling; assumption.
+    - exact Hs.
+    - exact Hpm.
+    - unfold ll_multinom. apply vis_eq_msum, Hpm.
+    - unfold linear_Poisson_residual. apply Forall2_eq_list.
+      apply (zipw_rel vis1 vis1 eq (lin_entry cut) (vis1_lin cut)); [apply vis_eq_auto_fold; assumption | assumption].
+    - unfold Anscombe_Poisson_residual. apply Forall2_eq_list.
+      apply (zipw_rel vis1 vis1 eq (ans_entry cut) (vis1_ans cut)); [apply vis_eq_auto_fold; assumption | assumption]. Qed.
+End HiddenContent.
+
+(** the executable fold (and so, on lists of the right length, the C09 fold) maps visibly equal spectra to visibly
+    equal spectra: an entry of the folded spectrum is masked as soon as one of the two entries it adds up is *)
+Lemma Forall2_rev_ {A} (Rl : A -> A -> Prop) a b : Forall2 Rl a b -> Forall2 Rl (rev a) (rev b).
+Proof. induction 1; cbn [rev]; [constructor|]. apply Forall2_app; [assumption | constructor; [assumption | constructor]]. Qed.
+
+Lemma vis_eq_mask_last_entry a b : vis_eq a b -> vis_eq (mask_last_entry a) (mask_last_entry b).
+Proof. induction 1 as [|x y a b Hxy Hab IH]; [constructor|].
+  destruct Hab as [|x2 y2 a b H2 Hab].
+  - cbn. constructor; [|constructor]. split; [reflexivity | cbn; intros E; discriminate E].
+  - change (mask_last_entry (x :: x2 :: a)) with (x :: mask_last_entry (x2 :: a)).
+    change (mask_last_entry (y :: y2 :: b)) with (y :: mask_last_entry (y2 :: b)).
+    constructor; assumption. Qed.
+
+Lemma vis_eq_mask_corner_entries a b : vis_eq a b -> vis_eq (mask_corner_entries a) (mask_corner_entries b).
+Proof. intros H. apply vis_eq_mask_last_entry in H. unfold mask_corner_entries.
+  destruct H as [|x y a' b' _ Hab]; [constructor|].
+  constructor; [split; [reflexivity | cbn; intros E; discriminate E] | assumption]. Qed.
+
+Lemma fold_zip_vis N : forall a b : list entryR, vis_eq a b -> forall ra rb : list entryR, vis_eq ra rb -> forall tot,
+  vis_eq (map (fold_entry N) (combine (combine a ra) tot)) (map (fold_entry N) (combine (combine b rb) tot)).
+Proof. induction 1 as [|x y a b Hxy _ IH]; intros ra rb Hr tot; [constructor|].
+  destruct Hr as [|rx ry ra rb Hrxy Hr]; [constructor|]. destruct tot as [|t tot]; [constructor|].
+  cbn [combine map]. constructor; [|apply IH; assumption].
+  destruct x as [xv xm], y as [yv ym], rx as [rxv rxm], ry as [ryv rym].
+  destruct Hxy as [Mx Vx], Hrxy as [Mr Vr]. unfold em, ev in Mx, Vx, Mr, Vr. cbn [fst snd] in Mx, Vx, Mr, Vr. subst ym rym.
+  unfold vis1, fold_entry, em, ev. cbn [fst snd]. split; [reflexivity|].
+  intros E. apply orb_false_elim in E. destruct E as [E _]. apply orb_false_elim in E. destruct E as [E1 E2].
+  rewrite <- (Vx E1), <- (Vr E2). reflexivity. Qed.
+
+Theorem fold_flat_vis N tot (a b : list entryR) : vis_eq a b -> vis_eq (fold_flat N tot a) (fold_flat N tot b).
+Proof. intros H. unfold fold_flat. apply vis_eq_mask_corner_entries, fold_zip_vis; [assumption | apply Forall2_rev_; assumption]. Qed.
+
+Theorem hidden_content_irrelevant_fold_flat (lg : R -> R) (remask : bool) (N : Z) (tot : list Z)
+    (cut : option R) (mf df : bool) (m m' d d' : list entryR) :
+  vis_eq m m' -> vis_eq d d' ->
+  let fold := fold_flat N tot in
+  ll lg fold mf df m d = ll lg fold mf df m' d' /\
+  vis_eq (ll_per_bin lg fold mf df m d) (ll_per_bin lg fold mf df m' d') /\
+  optimal_sfs_scaling fold remask mf df m d = optimal_sfs_scaling fold remask mf df m' d' /\
+  vis_eq (optimally_scaled_sfs fold remask mf df m d) (optimally_scaled_sfs fold remask mf df m' d') /\
+  vis_eq (ll_multinom_per_bin lg fold remask mf df m d) (ll_multinom_per_bin lg fold remask mf df m' d') /\
+  ll_multinom lg fold remask mf df m d = ll_multinom lg fold remask mf df m' d' /\
+  linear_Poisson_residual fold cut mf df m d = linear_Poisson_residual fold cut mf df m' d' /\
+  Anscombe_Poisson_residual fold cut mf df m d = Anscombe_Poisson_residual fold cut mf df m' d'.
+Proof. intros Hm Hd fold. apply hidden_content_irrelevant; auto. apply fold_flat_vis. Qed.
